@@ -45,6 +45,22 @@ type c10Delivered struct {
 	mine     string  // rendering after the application has written into the status it was given (compared again at the end)
 	serial   uint32
 	seqid    uint32
+	instant  string // non-empty: a date-time of the status denotes another instant than its civil fields read in the process zone
+}
+
+// notLocal: the date-times of a status are civil times in the process zone (that is how GetStatus decodes the same datagram, and
+// what Before/After and the JSON form go by): a value whose instant, seen in the process zone, shows other civil fields is not the
+// decoding of the datagram even though it prints the same. Either instant of a repeated hour passes.
+func notLocal(name string, dt types.DateTime) string {
+	t := time.Time(dt)
+	if t.IsZero() {
+		return ""
+	}
+	const f = "2006-01-02 15:04:05"
+	if a, b := t.Format(f), t.In(time.Local).Format(f); a != b {
+		return fmt.Sprintf("%s prints %s but denotes %s in the process zone (location %v)", name, a, b, t.Location())
+	}
+	return ""
 }
 
 type c10Listener struct {
@@ -79,6 +95,9 @@ func (l *c10Listener) OnConnected() {
 func (l *c10Listener) OnEvent(s *types.Status) {
 	fields := adapter.PStatus(s)
 	d := c10Delivered{t: farm.Mono(), status: s, fields: fields, snapshot: fields.String(), serial: uint32(s.SerialNumber), seqid: s.SequenceId}
+	if d.instant = notLocal("SystemDateTime", s.SystemDateTime); d.instant == "" {
+		d.instant = notLocal("Event.Timestamp", s.Event.Timestamp)
+	}
 	if l.scribble {
 		// the status is the application's: it flips every door flag in it - no other status, earlier or later, is affected
 		for k, v := range s.DoorState {
@@ -270,6 +289,9 @@ func c10Make(r gen.R, z *zoneOracle, sender, count int, serialBase uint32, trans
 		d := &c10Datagram{sender: sender, n: n}
 		serial := serialBase + uint32(r.Pick(4))
 		seqid := uint32(sender)<<24 | uint32(n+1)
+		if sender%2 == 1 {
+			seqid = uint32(sender)<<24 | uint32(count-n) // this controller's sequence ids run backwards (a restarted or restored controller): still one event each
+		}
 		mk := func(wellFormed bool) []byte {
 			som := byte(0x17)
 			if r.Chance(0.3) {
@@ -403,7 +425,14 @@ func c10(c *Ctx) {
 			continue
 		}
 		addr := fmt.Sprintf("127.0.0.3:%d", port)
-		u := mkClient(ClientCfg{Bind: "127.0.0.1:0", Listen: addr, Timeout: time.Second})
+		// the first two senders' controllers are configured, each with a time zone of its own (far from the process zone)
+		devs := []DevCfg{}
+		for s := 0; s < 2; s++ {
+			for k := 0; k < 4; k++ {
+				devs = append(devs, DevCfg{ID: uint32(0x1a000000) + uint32(cycle)<<8 + uint32(s)<<4 + 1 + uint32(k), Name: fmt.Sprintf("c%d%d", s, k), Addr: "127.0.0.1:60000", Proto: "udp", NewDevice: k%2 == 0, TZ: []string{"Pacific/Kiritimati", "America/Anchorage", "Asia/Kathmandu", "UTC"}[(s*4+k+cycle)%4]})
+			}
+		}
+		u := mkClient(ClientCfg{Bind: "127.0.0.1:0", Listen: addr, Timeout: time.Second, Devices: devs})
 		if cycle%2 == 1 && prevU != nil {
 			// the same client listens again on the same address: a second session is as good as the first
 			u, addr = prevU, prevAddr
@@ -638,6 +667,9 @@ func c10(c *Ctx) {
 					key = "C10:event:content:SystemDateTime"
 				}
 				c.Res.Violate(key, fmt.Sprintf("delivered event differs from the protocol decoding of its datagram: %s", msg), w(map[string]any{"datagram": wk.Hex(d.data), "delivered": ev.snapshot}), int64(cycle))
+			}
+			if ev.instant != "" {
+				c.Res.Violate("C10:event:content:instant", "delivered event differs from the protocol decoding of its datagram: "+ev.instant, w(map[string]any{"datagram": wk.Hex(d.data), "delivered": ev.snapshot}), int64(cycle))
 			}
 			// ... and does not change afterwards
 			if now := adapter.PStatus(ev.status).String(); now != ev.mine {
